@@ -1715,7 +1715,8 @@ def correspondence(ctx, meta, rng, coq=True, width=None, broken=None):
             sink.append((case, out, fail, key))
             keys_seen[json.dumps({k: key.get(k) for k in ("call", "route", "other", "kw", "class", "npos", "okind")}, sort_keys=True)] = 1
             # a dispatch observation comes for free with every value case
-            if not (out["disp"][0] == "call" and -1 in out["disp"][3]):
+            parser_rejected = (not case["call"].startswith("binop:") and not out.get("handler_reached") and out["res"][0] == "err")
+            if not (out["disp"][0] == "call" and -1 in out["disp"][3]) and not parser_rejected:
                 dcs.append({"call": case["call"], "kinds": out["kinds"], "obs": out["disp"] if out["disp"][0] != "none" else ("raise", "OtherError")})
             if fail:
                 k2 = value_key(case, out, fail, real)
